@@ -86,6 +86,28 @@ def check_cg_loop(ctx: Ctx, f):
             ctx.ob("C17-O2", "R1 STATUS-GUARD", f, "OPTIMAL additionally requires rolls <= ceil(LP bound)", any("<= lb" in c for c in conj_txt) and any(ast.unparse(n) == "lb = ceil(lp_obj - eps)" for n in own_nodes(f.node)), f"{conj_txt}", node=s.call)
 
 
+def _pricing_scale_written_once(ctx: Ctx, kpf):
+    """The DP runs on `cap_int` and `sizes_int`, both scaled by the same factor.  A later rescaling has to keep the
+    capacity on the safe side: the capacity may only be floor-divided (a pattern that fits the reduced roll fits the
+    real one), the sizes only divided exactly by the same divisor."""
+    for name in ("cap_int", "sizes_int"):
+        defs = [n for n in own_nodes(kpf.node) if isinstance(n, (ast.Assign, ast.AugAssign)) and ast.unparse(n.targets[0] if isinstance(n, ast.Assign) else n.target) == name]
+        ctx.require(len(defs) >= 1, f"`{name}` not defined in knapsack_pricing")
+        defs.sort(key=lambda d_: (d_.lineno, d_.col_offset))
+        bad = []
+        for d in defs[1:]:
+            v = d.value
+            if isinstance(d, ast.AugAssign):
+                ok = isinstance(d.op, ast.FloorDiv)
+            elif name == "cap_int":
+                ok = isinstance(v, ast.BinOp) and isinstance(v.op, ast.FloorDiv) and ast.unparse(v.left) == name
+            else:
+                ok = isinstance(v, ast.ListComp) and isinstance(v.elt, ast.BinOp) and isinstance(v.elt.op, ast.FloorDiv)
+            if not ok:
+                bad.append(d)
+        ctx.ob("C17-O1", "R32 EXACT-DIVISION", kpf, f"`{name}` is scaled once; a later reduction divides it downwards (`//`) only", not bad, f"`{ast.unparse(bad[0])[:70]}`: a capacity rounded to nearest can exceed the real roll, the best DP pattern then fails the width re-check, the greedy fallback prices at most 1 and column generation stops before the optimum" if bad else "", node=bad[0] if bad else defs[0])
+
+
 def run(ctx: Ctx):
     cs = ctx.func("cg", "_solve_cutting_stock")
     cu = ctx.func("cg", "_solve_custom")
@@ -309,6 +331,7 @@ def run(ctx: Ctx):
     kpf = ctx.func("utils.pricing", "knapsack_pricing")
     ctx.step(_need, "C17-O7", "R30 ACCUMULATOR-PAIRING", kpf, "pricing DP: a state is extended only from a reachable state, on strict improvement, and value and pattern are updated together (one more copy of item i)", ["dp_val[0] = 0.0", "prev_w = w - size_i\n                if dp_val[prev_w] > -float('inf'):\n                    new_val = dp_val[prev_w] + values[i]\n                    if new_val > dp_val[w] + eps:\n                        dp_val[w] = new_val\n                        dp_pat[w] = list(dp_pat[prev_w])\n                        dp_pat[w][i] += 1", "for _ in range(max_copies[i]):\n            for w in range(cap_int, size_i - 1, -1):"])
     ctx.step(_need, "C17-O7", "R30 ACCUMULATOR-PAIRING", kpf, "the best state over all weights is returned with its own pattern", ["for w in range(cap_int + 1):\n        if dp_val[w] > best_val + eps:\n            best_val = dp_val[w]\n            best_w = w", "best_w = 0\n    best_val = 0.0", "best_pat = dp_pat[best_w] if best_val > eps else [0] * n", "return (tuple(best_pat), best_val)"])
+    ctx.step(_pricing_scale_written_once, kpf)
     # an item is left out of the pricing DP only when its dual value is not positive: every other skip under-reports the
     # best pattern value, column generation stops early and the unproven master LP value is used as a bound
     kcfg = cfg_of(kpf.node)
@@ -514,7 +537,25 @@ def _t_reformat(tree):
     pass
 
 
+def _v_pricing_capacity_rounded_after_gcd(tree):
+    g = M.find_func(tree, "knapsack_pricing")
+    k = [i for i, st in enumerate(g.body) if isinstance(st, ast.Assign) and M.src_is(st.targets[0], "sizes_int")]
+    if not k:
+        raise M.Skip("sizes_int not found")
+    g.body[k[0] + 1 : k[0] + 1] = M.stmts("g_ = min(sizes_int)\nif g_ > 1 and all(s_ % g_ == 0 for s_ in sizes_int):\n    cap_int = int(cap_int / g_ + 0.5)\n    sizes_int = [s_ // g_ for s_ in sizes_int]")
+
+
+def _t_pricing_capacity_floor_after_gcd(tree):
+    g = M.find_func(tree, "knapsack_pricing")
+    k = [i for i, st in enumerate(g.body) if isinstance(st, ast.Assign) and M.src_is(st.targets[0], "sizes_int")]
+    if not k:
+        raise M.Skip("sizes_int not found")
+    g.body[k[0] + 1 : k[0] + 1] = M.stmts("g_ = min(sizes_int)\nif g_ > 1 and all(s_ % g_ == 0 for s_ in sizes_int):\n    cap_int = cap_int // g_\n    sizes_int = [s_ // g_ for s_ in sizes_int]")
+
+
 VARIANTS = [
+    M.Variant("pricing DP: common factor divided out, the capacity rounded to nearest (seed C17-M)", PRI, _v_pricing_capacity_rounded_after_gcd, "C17-O1"),
+    M.Variant("twin: common factor divided out, the capacity floor-divided", PRI, _t_pricing_capacity_floor_after_gcd, None),
     M.Variant("custom mode keeps duplicate initial columns (original defect)", BP, _v_duplicate_initial_columns, "C17-O3"),
     M.Variant("the gap is measured against the node's own LP value (original defect)", BP, _v_gap_against_own_lp, "C17-O2"),
     M.Variant("the per-node bound map is hoisted out of the node loop and never cleared (seed C17-L)", BP, _v_bound_map_hoisted, "C17-O7"),
